@@ -2,6 +2,7 @@
 import os
 import json
 import time
+import signal
 import shutil
 import tempfile
 
@@ -13,6 +14,7 @@ ID = "C19"
 CASES = {"quick": 400, "thorough": 10000}
 SOFT = 45
 HARD = 300
+MUTATE_BUDGET = 20
 RULE = ("case = scenario (files in a fresh directory + argv) for one of check/solve/parse/repair/mutate: grammar as "
         ".bnf file(s), split over two files, or -g (zoo, numeric or random acyclic grammar printed by the harness; or "
         "malformed by construction: syntactically, lexically, empty, undefined nonterminal, no <start>; or missing), "
@@ -359,10 +361,12 @@ def generate(rnd, tier):
     # ---- input class
     icls = None
     if cmd != "solve":
-        icls = pick(rnd, ["valid"] * 6 + ["sem_invalid"] * 6 + ["syn_invalid"] * 3 + ["empty"] * 2 + ["json_non_tree"] * 3 +
-                    ["json_tree"] * 3 + ["json_tree_invalid"] * 2 + ["json_tree_partial"])
+        icls = pick(rnd, ["valid"] * (12 if cmd == "parse" else 9) + ["sem_invalid"] * 6 + ["syn_invalid"] * 3 + ["empty"] * 2 +
+                    ["json_non_tree"] * 3 + ["json_tree"] * 4 + ["json_tree_invalid"] * 2 + ["json_tree_partial"])
         if cmd in ("repair", "mutate") and icls == "json_tree_partial" and chance(rnd, 0.5):
             icls = "sem_invalid"
+        if err is not None and icls == "json_tree_partial":
+            icls = "valid"  # keep the designed error classes free of the second root cause
     # make the verdicts fit the class: negate constraints as needed
     in_tree = tree
     if cmd in ("repair", "mutate") and icls == "sem_invalid":
@@ -724,6 +728,12 @@ def _judge(case, d):
     counters = {}
     argv, spec = materialize(case, d)
     t0 = time.time()
+    if cmd == "mutate":
+        # `isla mutate` loops until a mutant can be repaired: give it a smaller share of the runner's
+        # cooperative budget (same timer, same handler; a hit is an inconclusive "timeout")
+        left = signal.getitimer(signal.ITIMER_REAL)[0]
+        if left > MUTATE_BUDGET:
+            signal.setitimer(signal.ITIMER_REAL, MUTATE_BUDGET)
     r = L.run_cli(argv, case["rseed"])
     counters["ms_main:" + cmd] = int(1000 * (time.time() - t0))
     labels.append("status:%s" % (r["status"] if not r["exc"] else "uncaught"))
@@ -1002,9 +1012,10 @@ def health(stats, tier):
     for k, share in need.items():
         if c.get(k, 0) < share * n:
             return "class %s only %d of %d cases" % (k, c.get(k, 0), n)
-    if c.get("conj_differs_from_disj", 0) < 0.02 * n:
+    if c.get("conj_differs_from_disj", 0) < 0.015 * n:
         return "only %d cases where conjunction and disjunction of the constraints differ" % c.get("conj_differs_from_disj", 0)
     prod = sum(v for k, v in c.items() if k.startswith("solve_outputs:"))
-    if prod < 0.15 * c.get("cmd:solve", 0) and c.get("cmd:solve", 0) > 30:
+    # (solver productivity depends on machine load: the floor only guards against a dead generator)
+    if prod < 0.06 * c.get("cmd:solve", 0) and c.get("cmd:solve", 0) > 30:
         return "solve printed solutions in only %d of %d solve scenarios" % (prod, c.get("cmd:solve", 0))
     return None
